@@ -283,6 +283,8 @@ func VerifC06_Attestations() { c06Attestations(vnd.IntRange("n", 1, 2)) }
 
 func VerifC06_Attestations3() { c06Attestations(3) }
 
+func VerifC06_Attestations4() { c06Attestations(4) }
+
 func c06Attestations(n int) {
 	d := &vDomains{}
 	s := c06Service(d)
@@ -321,6 +323,8 @@ func c06Attestations(n int) {
 func VerifC06_Roots() { c06Roots(vnd.IntRange("n", 1, 2)) }
 
 func VerifC06_Roots3() { c06Roots(3) }
+
+func VerifC06_Roots4() { c06Roots(4) }
 
 func c06Roots(n int) {
 	d := &vDomains{}
